@@ -382,7 +382,9 @@ func (c *fsCache) get(key string) ([]byte, error) {
 	}
 	if c.updateMTime {
 		mtime := time.Now()
-		if err := c.root.Chtimes(name, zeroTime, mtime); err != nil {
+		// The value was read in full; a Delete that removed the file since then
+		// leaves nothing to touch and does not turn the hit into a failure.
+		if err := c.root.Chtimes(name, zeroTime, mtime); err != nil && !errors.Is(err, os.ErrNotExist) {
 			return nil, err
 		}
 	}
